@@ -20,7 +20,12 @@ RULE = ("A TreeSpec (depth 1-3, explicit defaults and empty sub-fibers generated
         "increasing coordinates, singly boxed leaves at one depth, fibers above); a call rejected for coordinate "
         "order left the snapshot unchanged; only documented rejections are accepted as exceptions. Non-trivial: "
         ">=5 successful steps of >=3 kinds on a tree that held an explicit default or empty sub-fiber, or a "
-        "history containing a rejected call. Distinct = SHA-1 of the case.")
+        "history containing a rejected call. The deprecated public mutators insertOrLookup (any coordinate) and "
+        "insert (absent coordinates) are part of the histories. Part typed-leaves: one-level fibers (owned or not) "
+        "built through three constructors and changed through append / extend / position assignment / reference "
+        "assignment / insert with values of every type maybe_box documents (bool, float, int, str, tuple, "
+        "frozenset); nothing is computed with them, every leaf must stay singly boxed. Distinct = SHA-1 of the "
+        "case.")
 ASSUMPTIONS = ["payload kinds match the level (a Fiber is never written into a leaf slot)",
                "updateCoords functions are injective (the docstring says uniqueness is unchecked)",
                "sub-fibers are appended / replaced by hand only in unowned trees"]
@@ -35,7 +40,8 @@ def cases(draw, max_steps=25):
         # reliably in unowned trees of depth <= 2 only (deeper trees are tensors in every caller)
         hows += ["unowned", "unowned", "unowned"]
     how = draw(st.sampled_from(hows))
-    ops = draw(st.lists(machine.op(default=spec["default"]), min_size=1, max_size=max_steps))
+    ops = draw(st.lists(machine.op(kinds=machine.MUTATORS + ["insert"], default=spec["default"]), min_size=1,
+                        max_size=max_steps))
     return {"spec": spec, "how": how, "ops": ops}
 
 
@@ -68,12 +74,85 @@ def check(case, rec):
     rec.nontrivial((len(ok_kinds) >= 5 and len(set(ok_kinds)) >= 3 and noisy) or rejected > 0)
 
 
+# ---------------------------------------------------------------- leaves of every boxed type
+# maybe_box documents the boxed value types: bool, float, int, str, tuple, frozenset.  The history part
+# computes with its values, so it draws numbers; here nothing is computed and every type is stored through
+# every storing entry point.
+TYPED = [["int", 3], ["int", -2], ["float", 1.5], ["bool", True], ["str", "a"], ["str", ""], ["tuple", [1, 2]],
+         ["tuple", []], ["fset", [1, 2]], ["int", 7]]
+
+
+def typed_value(tv):
+    kind, v = tv
+    return {"tuple": tuple, "fset": frozenset}.get(kind, lambda x: x)(v)
+
+
+@st.composite
+def typed_cases(draw):
+    tv = st.sampled_from(TYPED)
+    n = draw(st.integers(0, 3))
+    init = [[2 * i + 1, draw(tv)] for i in range(n)]
+    ops = draw(st.lists(st.tuples(st.sampled_from(["append", "setitem", "setitem_cp", "ref", "insertOrLookup", "insert",
+                                                   "extend"]),
+                                  st.integers(0, 9), tv), min_size=1, max_size=6))
+    return {"init": init, "ops": [list(o) for o in ops], "owned": draw(st.booleans()),
+            "ctor": draw(st.sampled_from(["lists", "coordpayloads", "uncompressed"]))}
+
+
+def check_typed(case, rec):
+    init = [(c, typed_value(tv)) for c, tv in case["init"]]
+    if case["ctor"] == "lists":
+        f = Fiber([c for c, _ in init], [v for _, v in init], shape=20)
+    elif case["ctor"] == "coordpayloads":
+        f = Fiber.fromCoordPayloadList([(c, v) for c, v in init], shape=20) if init else Fiber(shape=20)
+    else:
+        nest = [0] * 20
+        for c, v in init:
+            nest[c] = v
+        f = Fiber.fromUncompressed(nest)
+    if case["owned"]:
+        t = Tensor.fromFiber(["K"], f, shape=[20])
+        f = t.getRoot()
+    observe.wellformed(f, 1, f"typed leaves: constructor ({case['ctor']}) with {init}")
+    for name, k, tv in case["ops"]:
+        v = typed_value(tv)
+        last = f.coords[-1] if f.coords else -1
+        if name == "append":
+            if last + 1 >= 20:
+                continue
+            f.append(last + 1 + k % 2, v)
+        elif name == "extend":
+            if last + 2 >= 20:
+                continue
+            f.extend(Fiber([last + 1, last + 2], [v, v]))
+        elif name in ("setitem", "setitem_cp"):
+            if not f.coords:
+                continue
+            pos = k % len(f.coords)
+            f[pos] = v if name == "setitem" else CoordPayload(f.coords[pos], v)
+        elif name == "ref":
+            ref = f.getPayloadRef(k % 20)
+            ref <<= v
+        elif name == "insertOrLookup":
+            f.insertOrLookup(k % 20, v)
+        elif name == "insert":
+            if k % 20 in f.coords:
+                continue
+            f.insert(k % 20, v)
+        observe.wellformed(f, 1, f"typed leaves: after {name}({k}, {v!r}) coords={f.coords} payloads={f.payloads}")
+        rec.cls(name)
+        rec.cls("type-" + tv[0])
+    rec.cls("owned" if case["owned"] else "unowned")
+    rec.nontrivial(len({tv[0] for _, _, tv in case["ops"]} | {tv[0] for _, tv in case["init"]}) >= 3)
+
+
 PARTS = [Part("history", cases(25), check, n_quick=3000, n_thorough=15000),
+         Part("typed-leaves", typed_cases(), check_typed, n_quick=800, n_thorough=3000),
          Part("long-history", cases(60), check, n_quick=0, n_thorough=3000)]
 
 
 def coverage_warnings(rec):
-    n = max(1, rec.evaluations)
+    n = max(1, sum(v for k, v in rec.classes.items() if k.startswith("history:depth")))
     out = []
     for k, floor in (("history:has-rejection", 0.15), ("history:has-populate", 0.3), ("history:resorting-updateCoords", 0.05)):
         if rec.classes.get(k, 0) / n < floor:
